@@ -276,6 +276,13 @@ func (app *Application) submitEvidence(
 	if b {
 		return roothash.ErrDuplicateEvidence
 	}
+
+	// Store the evidence and slash the node atomically, rollback in case slashing fails (e.g.
+	// because the evidence is for a key that does not belong to a registered node).
+	ctx = ctx.NewTransaction()
+	defer ctx.Close()
+
+	state = roothashState.NewMutableState(ctx.State())
 	if err = state.SetEvidenceHash(ctx, rtState.Runtime.ID, round, evHash); err != nil {
 		return err
 	}
@@ -288,6 +295,8 @@ func (app *Application) submitEvidence(
 	); err != nil {
 		return fmt.Errorf("error slashing runtime node: %w", err)
 	}
+
+	ctx.Commit()
 
 	return nil
 }
